@@ -30,10 +30,10 @@ RT = 1e-12
 
 UNITS_BY_KIND = {
     'length': (ut.L_, ['angstrom', 'nm', 'm', 'pm', 'cm']),
-    'velocity': ((1, 0, -1, 0, 0), ['m/s', 'angstrom/ps', 'nm/fs', 'angstrom / fs']),
-    'force': (ut.FORCE, ['eV/angstrom', 'nN', 'N', 'kcal/(mol*angstrom)']),
-    'energy': (ut.ENERGY, ['eV', 'J', 'meV', 'kcal/mol', 'kJ/mol']),
-    'pressure': (ut.PRESSURE, ['GPa', 'bar', 'eV/angstrom^3', 'Pa', 'atm']),
+    'velocity': ((1, 0, -1, 0, 0), ['m/s', 'angstrom/ps', 'nm/fs', 'angstrom / fs', 'nm*angstrom/ps/nm']),
+    'force': (ut.FORCE, ['eV/angstrom', 'nN', 'N', 'kcal/(mol*angstrom)', 'kcal/mol/angstrom', 'eV/nm^2*angstrom', 'kg*m/s/s']),
+    'energy': (ut.ENERGY, ['eV', 'J', 'meV', 'kcal/mol', 'kJ/mol', 'GPa*angstrom^3', 'eV/angstrom*nm']),
+    'pressure': (ut.PRESSURE, ['GPa', 'bar', 'eV/angstrom^3', 'Pa', 'atm', 'eV/angstrom/angstrom^2', 'N/m/m', 'kg/m/s^2']),
     'charge': (ut.Q_, ['e', 'C', 'mC']),
     'mass': (ut.M_, ['amu', 'g/mol', 'kg']),
     'time': (ut.T_, ['ps', 'fs', 's']),
@@ -90,7 +90,7 @@ class ModelEngine(Engine):
     expected_probes = ['read_in_other_epoch', 'xml_read', 'json_read', 'dm_read', 'path_read', 'stream_read', 'short_read_stream',
                        'scaled_property', 'symbols_with_gap', 'masses_partly_none', 'one_atom_system', 'length1_array',
                        'rank3_value', 'rewrite_chain', 'elastic_normalised', 'unseeded_epoch', 'string_property', 'error_field',
-                       'noncontiguous_input', 'box_read_into_used_object', 'io_error_read_raised']
+                       'noncontiguous_input', 'box_read_into_used_object', 'io_error_read_raised', 'second_write_same_arguments', 'single_property_record']
     rule = ('Each run is a history of up to 30 operations over a set of up to 10 serialised artifacts: build a value-with-units / '
             'Box / Atoms / System / ElasticConstants in the current epoch from simulator-held physical (SI, dimension) values and '
             'write it (arrays handed over C-ordered, Fortran-ordered, transposed or as strided views; uc.model, .model(), dump("system_model"), JSON or XML text with any indent, returned / to path / to stream); '
@@ -244,7 +244,7 @@ class ModelEngine(Engine):
             units['pos'] = pos_unit
             units['atype'] = None
             op.update(n=n, V=V * 1e-10, origin=o * 1e-10, atype=atype, pos=pos, props=props, units=units,
-                      subset=r.random() < 0.2, by=r.choice(['prop_unit', 'lists', 'default']))
+                      subset=r.choice([False, False, False, False, True, 'one']), by=r.choice(['prop_unit', 'lists', 'default']))
             if what == 'system':
                 nsym = r.choice([0, ntypes, ntypes, ntypes + 1])
                 syms = [r.choice(SYMS + [None]) for _ in range(nsym)]
@@ -258,7 +258,7 @@ class ModelEngine(Engine):
                           via=r.choice(['model', 'dump']))
         else:
             # a positive-definite stiffness of a given crystal system, SI (Pa)
-            system = r.choice(['triclinic', 'cubic', 'hexagonal', 'orthorhombic', 'isotropic-as-cubic'])
+            system = r.choice(['triclinic', 'cubic', 'hexagonal', 'orthorhombic', 'isotropic-as-cubic', 'rhombohedral', 'tetragonal'])
             op.update(system=system, C=self._gen_cij(r, system), unit=self._gen_units(ctx, 'pressure'),
                       normalise=r.random() < 0.4)
         return op
@@ -279,6 +279,30 @@ class ModelEngine(Engine):
             C[:3, :3] = c12
             np.fill_diagonal(C[:3, :3], c11)
             C[3, 3] = C[4, 4] = C[5, 5] = c44
+        elif system in ('rhombohedral', 'tetragonal'):
+            # written from the Voigt symmetry tables (Nye), not from atomman
+            c13 = r.uniform(40, 0.7 * c11)
+            c33 = r.uniform(150, 300)
+            C[0, 0] = C[1, 1] = c11
+            C[2, 2] = c33
+            C[0, 1] = C[1, 0] = c12
+            C[0, 2] = C[2, 0] = C[1, 2] = C[2, 1] = c13
+            C[3, 3] = C[4, 4] = c44
+            if system == 'rhombohedral':
+                c14 = r.uniform(-0.3, 0.3) * c44
+                c15 = r.choice([0.0, r.uniform(-0.2, 0.2) * c44])
+                C[5, 5] = (c11 - c12) / 2
+                C[0, 3] = C[3, 0] = c14
+                C[1, 3] = C[3, 1] = -c14
+                C[4, 5] = C[5, 4] = c14
+                C[0, 4] = C[4, 0] = c15
+                C[1, 4] = C[4, 1] = -c15
+                C[3, 5] = C[5, 3] = -c15
+            else:
+                c16 = r.choice([0.0, r.uniform(-0.2, 0.2) * c44])
+                C[5, 5] = r.uniform(30, 120)
+                C[0, 5] = C[5, 0] = c16
+                C[1, 5] = C[5, 1] = -c16
         elif system == 'hexagonal':
             c13 = r.uniform(40, 0.7 * c11)
             c33 = r.uniform(150, 300)
@@ -403,7 +427,12 @@ class ModelEngine(Engine):
             if op.get('error'):
                 kw['error'] = np.abs(w) * 0.01
                 ctx.probe('error_field')
+            keep_v = np.array(given, copy=True) if isinstance(given, np.ndarray) else None
+            keep_e = np.array(kw['error'], copy=True) if 'error' in kw else None
             vm = ctx.must('C10.J1', uc.model, given, unit, klass='uc.model/%s/%s' % (op['form'], 'unit' if unit else 'nounit'), **kw)
+            if (keep_v is not None and not np.array_equal(keep_v, given)) or (keep_e is not None and not np.array_equal(keep_e, kw['error'])):
+                raise Violation('C10.J7', {'what': 'uc.model changed the array it was given', 'which': 'value' if (keep_v is not None and not np.array_equal(keep_v, given)) else 'error',
+                                           'unit': unit}, klass='mutated-by-write/value')
             root = DM()
             root['quantity'] = vm
             t.fields['value'] = {'si': si, 'dim': dim, 'tagged': unit is not None}
@@ -468,9 +497,13 @@ class ModelEngine(Engine):
         atoms = ctx.must('C10.X', am.Atoms, atype=np.array(op['atype'], dtype=int), pos=pos, klass='Atoms()', **arrs)
         snap = {nm: np.array(atoms.view[nm]) for nm in atoms.view}
         system = None
+        kw_before = None
         units = dict(op['units'])
         names = ['atype', 'pos'] + sorted(arrs)
-        if op['subset'] and len(names) > 2:
+        if op['subset'] == 'one' and what == 'system':
+            names = ['pos']                 # a record with exactly one per-atom property
+            ctx.probe('single_property_record')
+        elif op['subset'] and len(names) > 2:
             names = names[:-1]
         if n == 1:
             ctx.probe('one_atom_system')
@@ -496,6 +529,7 @@ class ModelEngine(Engine):
             eff = {nm: units.get(nm) for nm in names}
             if eff.get('pos') is None:
                 eff['pos'] = 'angstrom'
+        import copy as _copy
         if what == 'atoms':
             eff = {k2: (None if v == 'scaled' else v) for k2, v in eff.items()}
             for k2 in ('unit', 'prop_unit'):
@@ -504,6 +538,7 @@ class ModelEngine(Engine):
                               {a: (None if v == 'scaled' else v) for a, v in kw[k2].items()})
             if 'prop_unit' in kw and kw['prop_unit'].get('pos') is None:
                 pass
+            kw_before = _copy.deepcopy(kw)
             m = ctx.must('C10.J1', atoms.model, klass='Atoms.model/' + by, **kw)
         else:
             box = ctx.must('C10.X', am.Box, vects=V, origin=o, klass='Box()')
@@ -518,6 +553,7 @@ class ModelEngine(Engine):
             system = ctx.must('C10.X', am.System, atoms=atoms, box=box, pbc=pbc, klass='System()', **skw)
             snap_box = (np.array(system.box.vects), np.array(system.box.origin))
             kw['box_unit'] = op['box_unit']
+            kw_before = _copy.deepcopy(kw)
             if op['via'] == 'dump' and op['enc'] != 'dm':
                 fmt = op['enc']
                 ikw = {} if op['indent'] is None else {'indent': op['indent']}
@@ -555,6 +591,15 @@ class ModelEngine(Engine):
             t.fields['vects'] = {'si': np.array(op['V'], dtype=float), 'dim': ut.L_, 'tagged': boxtag}
             t.fields['origin'] = {'si': np.array(op['origin'], dtype=float), 'dim': ut.L_, 'tagged': boxtag}
             t.meta['box_tagged'] = boxtag
+        # the caller re-uses its argument objects (a prop_unit dict, name and unit lists) for a second write of the same
+        # object: the second record must say what the first said
+        if kw_before is not None and m is not None:
+            again = ctx.must('C10.J1', (system.model if system is not None else atoms.model), klass='model/second-write/' + by, **kw)
+            if again.json() != m.json():
+                raise Violation('C10.J7', {'what': 'a second write of the same object with the same argument objects gives a different record',
+                                           'arguments_before_first_write': repr(kw_before)[:300], 'arguments_now': repr(kw)[:300]},
+                                klass='second-write/' + what)
+            ctx.probe('second_write_same_arguments')
         # "the original" is the object the caller still holds: writing it out must not have changed it
         live = system.atoms if system is not None else atoms
         for nm, before in snap.items():
@@ -754,6 +799,8 @@ class ModelEngine(Engine):
         # nothing extra may appear
         if t.kind in ('atoms', 'system'):
             extra = sorted(k2 for k2 in obj if k2.startswith('p:') and k2 not in t.fields)
+            if 'p:atype' in extra and 'p:atype' not in t.fields and np.all(np.asarray(obj['p:atype']) == 1):
+                extra.remove('p:atype')     # a record written without atype reads back with the documented default type 1
             if extra:
                 raise Violation('C10.J1', {'what': 'properties appeared that were not written', 'extra': extra}, klass='extra/' + klass)
 
